@@ -1,4 +1,4 @@
 ------------------------------- MODULE NormMC -------------------------------
-EXTENDS Norm, Json
+EXTENDS NormEngine, Json
 ExportInv == Done => PrintT(<<"EXPORT", ToJson([kind |-> FileKind, prog |-> prog, viol |-> viol, nfun |-> nfun])>>)
 =============================================================================
